@@ -219,14 +219,25 @@ func (rt *stubRT) RoundTrip(req *http.Request) (*http.Response, error) {
 	if strings.HasPrefix(mode, "pieces") && strings.Contains(mode, "+") {
 		// the answer's body arrives in three pieces (three reads), as a body of some size does;
 		// "pieces500ms+ok": the backend is silent for that long before the second and third piece
+		// "pieces31000msx32768+ok": three pieces of that many bytes each (a piece the size of the
+		// proxy's copy buffer fills it exactly)
 		plus := strings.Index(mode, "+")
 		var gap time.Duration
-		if n, err := strconv.Atoi(strings.TrimSuffix(mode[len("pieces"):plus], "ms")); err == nil {
+		spec, size := mode[len("pieces"):plus], 0
+		if x := strings.Index(spec, "x"); x >= 0 {
+			size, _ = strconv.Atoi(spec[x+1:])
+			spec = spec[:x]
+		}
+		if n, err := strconv.Atoi(strings.TrimSuffix(spec, "ms")); err == nil {
 			gap = time.Duration(n) * time.Millisecond
 		}
 		r, err := rt.answer(req, st, mode[plus+1:])
 		if err == nil && r != nil {
 			b, _ := io.ReadAll(r.Body)
+			if size > 0 {
+				b = []byte(strings.Repeat("ok from "+st.name+" ", 3*size/(len(st.name)+9)+1)[:3*size])
+				r.ContentLength = int64(len(b))
+			}
 			r.Body = &piecesBody{data: b, piece: (len(b) + 2) / 3, gap: gap}
 		}
 		return r, err
